@@ -278,7 +278,7 @@ struct World
     }
 
     // peek / more_than_one / every live PDU byte exact
-    bool check_state( const char* after, read_buffer ne, bool more, mc::Ctx& c )
+    bool check_state( const char* after, read_buffer ne, bool more, const std::uint8_t* mem_then, mc::Ctx& c )
     {
         if ( ref.n == 0 )
         {
@@ -293,9 +293,9 @@ struct World
         }
         for ( int k = 0; k != ref.n; ++k )
             for ( int i = 0; i != mem( ref.e[ k ].len ); ++i )
-                if ( store[ ref.e[ k ].off + i ] != expected_byte( ref.e[ k ], i ) )
+                if ( mem_then[ ref.e[ k ].off + i ] != expected_byte( ref.e[ k ], i ) )
                 {
-                    c.fail( mc::fmt( "pdu-bytes-changed:after-%s", after ), mc::fmt( "byte %d of the committed PDU id%d at offset %d changed (%02x, was %02x)", i, int( ref.e[ k ].id ), int( ref.e[ k ].off ), store[ ref.e[ k ].off + i ], expected_byte( ref.e[ k ], i ) ) );
+                    c.fail( mc::fmt( "pdu-bytes-changed:after-%s", after ), mc::fmt( "byte %d of the committed PDU id%d at offset %d changed (%02x, was %02x)", i, int( ref.e[ k ].id ), int( ref.e[ k ].off ), mem_then[ ref.e[ k ].off + i ], expected_byte( ref.e[ k ], i ) ) );
                     return false;
                 }
         if ( more != ( ref.n >= 2 ) ) { c.fail( mc::fmt( "more-than-one:wrong:after-%s", after ), mc::fmt( "%d PDUs stored, more_than_one() = %d", int( ref.n ), int( more ) ) ); return false; }
@@ -313,6 +313,7 @@ struct World
         static read_buffer sw1[ SW ], sw2[ SW ];
         read_buffer r1{ nullptr, 0 }, r2{ nullptr, 0 }, ne[ 4 ] = { { nullptr, 0 }, { nullptr, 0 }, { nullptr, 0 }, { nullptr, 0 } };
         bool more[ 4 ] = { false, false, false, false };
+        static std::uint8_t snap[ 4 ][ Size ];              // storage at the time of each observation
         int  stage = 0, len = 0, alloc_off = -1;
         Entry pushed{ 0, 0, 0 };
         const int sweep_to = Size + 1 - OH <= 249 ? Size + 1 : OH + 249;
@@ -326,14 +327,14 @@ struct World
             {
                 enter( 1 );
                 for ( int n = OH + 1; n <= sweep_to; ++n ) { sw1[ n ] = ring->alloc_front( store, n ); sw2[ n ] = ring->alloc_front( store, n ); }
-                enter( 5 ); ne[ 0 ] = ring->next_end(); more[ 0 ] = ring->more_than_one();
+                enter( 5 ); ne[ 0 ] = ring->next_end(); more[ 0 ] = ring->more_than_one(); memcpy( snap[ 0 ], store, Size );
                 enter( 0 );
                 return;
             }
             if ( e.kind == 2 )
             {
                 enter( 3 ); ring->pop_end( store );
-                enter( 5 ); ne[ 0 ] = ring->next_end(); more[ 0 ] = ring->more_than_one();
+                enter( 5 ); ne[ 0 ] = ring->next_end(); more[ 0 ] = ring->more_than_one(); memcpy( snap[ 0 ], store, Size );
                 enter( 6 ); scribble();
                 enter( 0 );
                 return;
@@ -344,7 +345,7 @@ struct World
             for ( int k = 0; k != e.k; ++k )
             {
                 enter( 3 ); ring->pop_end( store );
-                enter( 5 ); ne[ k ] = ring->next_end(); more[ k ] = ring->more_than_one();
+                enter( 5 ); ne[ k ] = ring->next_end(); more[ k ] = ring->more_than_one(); memcpy( snap[ k ], store, Size );
             }
             enter( 2 );
             len = payload_for( e.n, e.mode );
@@ -354,7 +355,7 @@ struct World
             layout_t::header( p, std::uint16_t( ( 0x10 | pushed.id ) | ( len << 8 ) ) );
             for ( int i = 2; i < OH; ++i ) p[ i ] = std::uint8_t( 0xE0 | pushed.id );
             enter( 4 ); ring->push_front( store, read_buffer{ p, std::size_t( e.n ) } );
-            enter( 5 ); ne[ 3 ] = ring->next_end(); more[ 3 ] = ring->more_than_one();
+            enter( 5 ); ne[ 3 ] = ring->next_end(); more[ 3 ] = ring->more_than_one(); memcpy( snap[ 3 ], store, Size );
             enter( 0 );
         } );
         if ( !g.empty() )
@@ -375,12 +376,12 @@ struct World
                 accepted += r >= 0;
             }
             alloc_off = accepted;
-            check_state( "alloc", ne[ 0 ], more[ 0 ], c );
+            check_state( "alloc", ne[ 0 ], more[ 0 ], snap[ 0 ], c );
         }
         else if ( e.kind == 2 )
         {
             ref_pop( c );
-            check_state( "pop", ne[ 0 ], more[ 0 ], c );
+            check_state( "pop", ne[ 0 ], more[ 0 ], snap[ 0 ], c );
         }
         else
         {
@@ -392,7 +393,7 @@ struct World
                 for ( int k = 0; k != e.k; ++k )
                 {
                     ref_pop( c );
-                    if ( !check_state( "pop", ne[ k ], more[ k ], c ) ) return true;
+                    if ( !check_state( "pop", ne[ k ], more[ k ], snap[ k ], c ) ) return true;
                 }
                 const bool was_empty = ref.n == 0;
                 if ( ref.n == MAXN ) { c.fail( "harness:fifo-capacity", "reference FIFO too small" ); return true; }
@@ -400,7 +401,7 @@ struct World
                 ref.front = std::uint16_t( pushed.off + mem( len ) );
                 ref.next_id = std::uint8_t( ( ref.next_id + 1 ) % IDS );
                 cls( c, e.k ? "push-after-pops" : "push", was_empty ? "into-empty" : "behind-others", len == e.n - OH ? "whole-block" : "part-of-block" );
-                if ( check_state( "push", ne[ 3 ], more[ 3 ], c ) )
+                if ( check_state( "push", ne[ 3 ], more[ 3 ], snap[ 3 ], c ) )
                 {
                     // the scribble needs the updated reference (it must not touch committed PDUs)
                     const std::string g2 = guarded( [&]{ scribble(); } );
@@ -439,7 +440,7 @@ int main( int argc, char** argv )
     }
     else
     {
-        const int wd = int( a.num( "wide-depth", th ? 4 : 3 ) ), dd = int( a.num( "deep-depth", th ? 14 : 10 ) );
+        const int wd = int( a.num( "wide-depth", th ? ( Size > 40 ? 4 : 5 ) : 3 ) ), dd = int( a.num( "deep-depth", th ? 14 : 10 ) );
         passes = { { "wide-scribble-00", 0x00, true, wd }, { "wide-scribble-ff", 0xff, true, wd },
                    { "deep-scribble-00", 0x00, false, dd }, { "deep-scribble-ff", 0xff, false, dd }, { "deep-raw", -1, false, dd - 2 } };
     }
